@@ -58,8 +58,11 @@ Definition series_cmp (s1 s2 : series) : comparison :=
   | Eq => tags_cmp (s_tags s1) (s_tags s2)
   | c => c
   end.
+(** equality of series keys (structural; cheaper to evaluate than [series_cmp]) *)
+Definition tag_eqb (a b : tag) := String.eqb (fst a) (fst b) && String.eqb (snd a) (snd b).
+Definition tags_eqb := list_eqb tag_eqb.
 Definition series_eqb (s1 s2 : series) : bool :=
-  match series_cmp s1 s2 with Eq => true | _ => false end.
+  String.eqb (s_name s1) (s_name s2) && tags_eqb (s_tags s1) (s_tags s2).
 
 (** Sorted set insertion (drops duplicates) and stable insertion sort. *)
 Section Sorting.
@@ -479,8 +482,6 @@ Definition spec_filter (shs : list shard) (start end_ : Z) (p : option pred) : l
          (filter (fun sf => opt_eval p (fst sf) (snd sf)) (stored_pairs shs))).
 
 (** * Equalities for the judge *)
-Definition tag_eqb (a b : tag) := String.eqb (fst a) (fst b) && String.eqb (snd a) (snd b).
-Definition tags_eqb := list_eqb tag_eqb.
 Definition point_eqb (a b : point) := (fst a =? fst b)%Z && (snd a =? snd b)%Z.
 Definition row_eqb (a b : row) := tags_eqb (fst a) (fst b) && list_eqb point_eqb (snd a) (snd b).
 Definition ostr_eqb := option_eqb String.eqb.
